@@ -52,6 +52,15 @@ var Schema = []*Table{
 		{Mode: 'i', Cols: []string{"a"}},
 		{Mode: 'u', Cols: []string{"u"}}}},
 	{Name: "e", Cols: []string{"x"}, Indexes: []Index{{Mode: 'k', Cols: []string{}}}},
+	// composite unique index that does not contain the key: a value is exempt from
+	// uniqueness only when ALL its columns are empty
+	{Name: "w", Cols: []string{"k", "a", "b"}, Indexes: []Index{
+		{Mode: 'k', Cols: []string{"k"}},
+		{Mode: 'u', Cols: []string{"a", "b"}}}},
+	// unique index on a case-insensitive (_lower!) column
+	{Name: "lw", Cols: []string{"k", "a"}, Indexes: []Index{
+		{Mode: 'k', Cols: []string{"k"}},
+		{Mode: 'u', Cols: []string{"a_lower!"}}}},
 	{Name: "p", Cols: []string{"pk", "d"}, Indexes: []Index{{Mode: 'k', Cols: []string{"pk"}}}},
 	{Name: "c", Cols: []string{"ck", "pk"}, Indexes: []Index{
 		{Mode: 'k', Cols: []string{"ck"}},
@@ -168,7 +177,11 @@ func (m MDB) Canon() string {
 func vals(t *Table, r Row, cols []string) []string {
 	out := make([]string, len(cols))
 	for i, c := range cols {
-		out[i] = r[t.col(c)]
+		if base, ok := strings.CutSuffix(c, "_lower!"); ok {
+			out[i] = strings.ToLower(r[t.col(base)]) // case-insensitive index column
+		} else {
+			out[i] = r[t.col(c)]
+		}
 	}
 	return out
 }
